@@ -114,6 +114,22 @@ theorem replicas_order_independent_partial (hashV : Nat → Nat → Nat) (nodes 
     ring_order_independent_partial hashV nodes nodes' vnodes rf hp hinj, hlen,
     (new_vnodes hashV nodes vnodes rf).2, (new_vnodes hashV nodes' vnodes rf).2]
 
+/-- **C19 (join order), for the positions the code computes**: `hash_virtual_node(node, i) =
+    sip(node as 8 LE bytes, i as 4 LE bytes)`; for every collision-free byte hash `sip`, every
+    membership, every two join orders, every vnode count: the same ring, hence (next theorem) the
+    same replica list for every key on every node.  What is assumed is a property of the 64-bit
+    hash function, not of the memberships used. -/
+theorem ring_order_independent_sip (sip : List Nat → Nat) (hs : ∀ a b, sip a = sip b → a = b)
+    (nodes nodes' : List Nat) (vnodes rf : Nat) (hp : nodes.Perm nodes') :
+    (new (vnodePos sip) nodes vnodes rf).ring = (new (vnodePos sip) nodes' vnodes rf).ring :=
+  ring_order_independent_partial (vnodePos sip) nodes nodes' vnodes rf hp (posInjective_vnodePos hs nodes vnodes)
+
+theorem replicas_order_independent_sip (sip : List Nat → Nat) (hs : ∀ a b, sip a = sip b → a = b)
+    (kb : Nat → List Nat) (nodes nodes' : List Nat) (vnodes rf key : Nat) (hp : nodes.Perm nodes') :
+    getReplicas (new (vnodePos sip) nodes vnodes rf) (keyPosOf sip kb key)
+      = getReplicas (new (vnodePos sip) nodes' vnodes rf) (keyPosOf sip kb key) :=
+  replicas_order_independent_partial (vnodePos sip) nodes nodes' vnodes rf _ hp (posInjective_vnodePos hs nodes vnodes)
+
 /-- the hypothesis is necessary: with colliding positions the stable sort keeps join order -/
 theorem ring_order_collision_counterexample :
     (new (fun _ _ => 7) [1, 2] 1 1).ring ≠ (new (fun _ _ => 7) [2, 1] 1 1).ring
@@ -356,6 +372,287 @@ theorem from_config_fixed_covers_members (ring : HashRing) (replicaId npeers : N
     PeersCoverMembers ring (fromConfigWith .fixed replicaId npeers sel) := by
   intro m hmem hne
   exact (from_config_peer_ids replicaId npeers m h1 h2).mpr ⟨(hm m hmem).1, (hm m hmem).2, hne⟩
+
+/-! ## replication factor: a larger RF extends the list (hot-key promotion / demotion) -/
+
+/-- **C19 (per-key RF)**: for `rf₁ ≤ rf₂` the replica list for `rf₁` is a prefix of the list for
+    `rf₂` — `AdaptiveReplicationManager::get_rf_for_key` raising a hot key from `base_rf` to
+    `hot_key_rf` only ADDS owners (no owner loses the key), demotion drops only the added ones -/
+theorem replicas_rf_prefix (hashV : Nat → Nat → Nat) (r : HashRing) (keyPos rf₁ rf₂ : Nat)
+    (hr : Reachable hashV r) (hle : rf₁ ≤ rf₂) :
+    getReplicasWithRf r keyPos rf₁ <+: getReplicasWithRf r keyPos rf₂ := by
+  rw [replicas_rf_take hr.wf keyPos rf₁ rf₂ hle]
+  exact List.take_prefix _ _
+
+/-- … in particular the primary never depends on the replication factor (`rf ≥ 1`) -/
+theorem primary_rf_independent (hashV : Nat → Nat → Nat) (r : HashRing) (keyPos rf₁ rf₂ : Nat)
+    (hr : Reachable hashV r) (h1 : 1 ≤ rf₁) (h2 : 1 ≤ rf₂) (hv : 1 ≤ r.vnodes) (hne : r.phys ≠ []) :
+    (getReplicasWithRf r keyPos rf₁).head? = (getReplicasWithRf r keyPos rf₂).head? := by
+  have key : ∀ rf, 1 ≤ rf → (getReplicasWithRf r keyPos rf).head? = (getReplicasWithRf r keyPos 1).head? := by
+    intro rf h
+    have hp := replicas_rf_prefix hashV r keyPos 1 rf hr h
+    have hl := (replicas_count_distinct hashV r keyPos 1 hr hv).1
+    have hpos : 0 < r.phys.length := List.length_pos_iff.mpr hne
+    obtain ⟨t, ht⟩ := hp
+    cases h1l : getReplicasWithRf r keyPos 1 with
+    | nil => rw [h1l] at hl; simp at hl; omega
+    | cons a as => rw [← ht, h1l]; rfl
+  rw [key rf₁ h1, key rf₂ h2]
+
+/-! ## sequences of membership changes -/
+
+/-- a membership change: `(true, x)` = `add_node(x)`, `(false, x)` = `remove_node(x)` -/
+def applyChange (hashV : Nat → Nat → Nat) (r : HashRing) (c : Bool × Nat) : HashRing :=
+  if c.1 then addNode hashV r c.2 else removeNode r c.2
+
+/-- no change of the sequence involves the key: a leaving node is not in the key's list when it
+    leaves, a joining node is not in the key's list once it has joined -/
+def Uninvolved (hashV : Nat → Nat → Nat) (keyPos : Nat) : HashRing → List (Bool × Nat) → Prop
+  | _, [] => True
+  | r, c :: cs =>
+    (if c.1 then ¬ c.2 ∈ getReplicas (addNode hashV r c.2) keyPos else ¬ c.2 ∈ getReplicas r keyPos)
+      ∧ Uninvolved hashV keyPos (applyChange hashV r c) cs
+
+/-- **C19 (minimal disruption, any number of changes)**: by induction over the sequence -/
+theorem minimal_disruption_sequence (hashV : Nat → Nat → Nat) (keyPos : Nat) (cs : List (Bool × Nat)) :
+    ∀ (r : HashRing), Reachable hashV r → Uninvolved hashV keyPos r cs →
+      getReplicas (cs.foldl (applyChange hashV) r) keyPos = getReplicas r keyPos := by
+  induction cs with
+  | nil => intro r _ _; rfl
+  | cons c cs ih =>
+    intro r hr hu
+    obtain ⟨h1, h2⟩ := hu
+    rw [List.foldl_cons]
+    have hr' : Reachable hashV (applyChange hashV r c) := by
+      unfold applyChange; split
+      · exact Reachable.add _ hr
+      · exact Reachable.remove _ hr
+    rw [ih _ hr' h2]
+    unfold applyChange
+    cases hc : c.1 with
+    | true =>
+      rw [hc] at h1
+      simp only [if_true] at h1 ⊢
+      exact minimal_disruption_add hashV r c.2 keyPos hr h1
+    | false =>
+      rw [hc] at h1
+      simp only [Bool.false_eq_true, if_false] at h1 ⊢
+      exact minimal_disruption_remove hashV r c.2 keyPos hr h1
+
+/-- the ring with its version counter refines the ring: every theorem above applies to it -/
+theorem vring_new_ring (hashV : Nat → Nat → Nat) (nodes : List Nat) (vnodes rf : Nat) :
+    (VRing.new hashV nodes vnodes rf).ring = new hashV nodes vnodes rf := by
+  unfold VRing.new new
+  have : ∀ (l : List Nat) (v : VRing), (l.foldl (VRing.add hashV) v).ring = l.foldl (addNode hashV) v.ring := by
+    intro l
+    induction l with
+    | nil => intro v; rfl
+    | cons x xs ih =>
+      intro v
+      rw [List.foldl_cons, List.foldl_cons, ih]
+      congr 1
+      unfold VRing.add
+      split
+      · rename_i h; unfold addNode; rw [if_pos h]
+      · rfl
+  exact this nodes _
+
+/-! ## `GossipState` with epochs, and the gossip loops of `production/gossip_manager.rs` -/
+
+/-- the epoch-carrying queue refines the plain queue of `queue_deltas_covers_owners` -/
+theorem gstate_queue_refines (cap : Nat) (ring : HashRing) (g : GState) (deltas : List Nat) :
+    (g.queueDeltas cap ring deltas).queue.map (·.1) = queueDeltas cap ring g.router (g.queue.map (·.1)) deltas := by
+  have hcap : ∀ (q : List (Msg × Nat)), (capQ cap q).map (·.1) = enforceCap cap (q.map (·.1)) := by
+    intro q; unfold capQ enforceCap; rw [List.map_drop, List.length_map]
+  unfold GState.queueDeltas queueDeltas
+  split
+  · rfl
+  · cases hr : g.router with
+    | none => simp only [hcap, List.map_append, List.map_cons, List.map_nil]
+    | some rt =>
+      simp only []
+      split
+      · simp only [hcap, List.map_append, List.map_map]
+        rfl
+      · simp only [hcap, List.map_append, List.map_cons, List.map_nil]
+
+/-- a targeted message is written to exactly the address the loop's map holds for its target —
+    and to NOBODY when the map has no entry (the loop logs at debug level and goes on) -/
+theorem dispatch_targeted (pm : NMap Nat) (npeers : Nat) (q : List (Msg × Nat)) (i t e : Nat) (ds : List Nat) :
+    (i, (Msg.targeted t ds, e)) ∈ dispatch pm npeers q ↔ (Msg.targeted t ds, e) ∈ q ∧ pm.get t = some i := by
+  unfold dispatch
+  rw [List.mem_flatMap]
+  constructor
+  · rintro ⟨m, hm, h⟩
+    obtain ⟨msg, ep⟩ := m
+    cases msg with
+    | targeted t' ds' =>
+      simp only at h
+      cases hg : pm.get t' with
+      | none => rw [hg] at h; simp at h
+      | some a =>
+        rw [hg] at h
+        simp only [List.mem_cons, List.mem_nil_iff, or_false, Prod.mk.injEq, Msg.targeted.injEq] at h
+        obtain ⟨h1, ⟨h2, h3⟩, h4⟩ := h
+        subst h1; subst h2; subst h3; subst h4
+        exact ⟨hm, hg⟩
+    | broadcast ds' =>
+      simp only [List.mem_map, Prod.mk.injEq] at h
+      obtain ⟨_, _, _, h, _⟩ := h
+      cases h
+    | heartbeat =>
+      simp only [List.mem_map, Prod.mk.injEq] at h
+      obtain ⟨_, _, _, h, _⟩ := h
+      cases h
+  · rintro ⟨hm, hg⟩
+    exact ⟨(Msg.targeted t ds, e), hm, by simp [hg]⟩
+
+/-- with the corrected arithmetic the map sends a target id to the peer index that stands for
+    that member -/
+theorem loop_address_fixed (replicaId npeers t : Nat) (h1 : 1 ≤ replicaId) (h2 : replicaId ≤ npeers + 1)
+    (ht : 1 ≤ t ∧ t ≤ npeers + 1 ∧ t ≠ replicaId) :
+    ∃ i, NMap.get (fromConfigPeers .fixed replicaId npeers) t = some i ∧ i < npeers ∧ memberOfIndex replicaId i = t := by
+  have hget := from_config_addresses_fixed replicaId npeers t h1 h2 ht
+  by_cases hlt : t < replicaId
+  · rw [if_pos hlt] at hget
+    refine ⟨t - 1, hget, by omega, ?_⟩
+    unfold memberOfIndex peerId
+    simp only []
+    rw [if_neg (by omega)]; omega
+  · rw [if_neg hlt] at hget
+    refine ⟨t - 2, hget, by omega, ?_⟩
+    unfold memberOfIndex peerId
+    simp only []
+    rw [if_pos (by omega)]; omega
+
+/-- **C19 (the gossip loop reaches every owner), corrected address arithmetic**: one tick of a
+    gossip loop of replica `me` in a sequentially numbered cluster `1..n+1`, router from
+    `from_config`, empty queue, below the queue capacity: for every delta of the batch and every
+    responsible replica `t ≠ me` a `TargetedDelta` carrying that delta is written to the configured
+    peer that IS member `t`. -/
+theorem loop_reaches_every_owner_fixed (hashV : Nat → Nat → Nat) (cap : Nat) (ring : HashRing)
+    (me npeers : Nat) (deltas : List Nat) (d t : Nat) (hr : Reachable hashV ring)
+    (h1 : 1 ≤ me) (h2 : me ≤ npeers + 1) (hm : ∀ m ∈ ring.phys, 1 ≤ m ∧ m ≤ npeers + 1)
+    (hcap : (routeSelective ring (fromConfigWith .fixed me npeers true) deltas).length ≤ cap)
+    (hd : d ∈ deltas) (ht : t ∈ getReplicas ring d) (hne : t ≠ me) :
+    ∃ i ds, memberOfIndex me i = t ∧ d ∈ ds
+      ∧ (i, (Msg.targeted t ds, 1)) ∈ (loopTick .fixed cap ring me npeers (GState.new me (some (fromConfigWith .fixed me npeers true))) deltas).1 := by
+  have hmem := replicas_are_members hashV ring d ring.rf hr t ht
+  obtain ⟨i, hi, _, hmi⟩ := loop_address_fixed me npeers t h1 h2 ⟨(hm t hmem).1, (hm t hmem).2, hne⟩
+  let rt := fromConfigWith .fixed me npeers true
+  have hcov : PeersCoverMembers ring rt := from_config_fixed_covers_members ring me npeers true h1 h2 hm
+  have hdne : deltas ≠ [] := by intro h; rw [h] at hd; cases hd
+  let ds := deltas.filter (fun d => decide (t ∈ getReplicas ring d) && (t != rt.self))
+  have hdin : d ∈ ds := by
+    simp only [ds, List.mem_filter, Bool.and_eq_true, decide_eq_true_eq, bne_iff_ne]
+    exact ⟨hd, ht, hne⟩
+  have hq := (queue_deltas_covers_owners hashV cap ring rt deltas t ds hr hcov rfl hdne hcap).mpr
+    ⟨rfl, by intro h; rw [h] at hdin; cases hdin⟩
+  refine ⟨i, ds, hmi, hdin, ?_⟩
+  unfold loopTick
+  simp only [GState.drain]
+  rw [dispatch_targeted]
+  refine ⟨?_, hi⟩
+  -- the queue of the state after the tick, projected, is the plain queue
+  have href := gstate_queue_refines cap ring ((GState.new me (some rt)).advanceEpoch) deltas
+  have hmemq : Msg.targeted t ds ∈ ((GState.new me (some rt)).advanceEpoch.queueDeltas cap ring deltas).queue.map (·.1) := by
+    rw [href]; exact hq
+  rw [List.mem_map] at hmemq
+  obtain ⟨⟨m, e⟩, hme, hm1⟩ := hmemq
+  simp only at hm1
+  subst hm1
+  -- every entry queued by this tick carries epoch 1
+  have hep : ∀ x ∈ ((GState.new me (some rt)).advanceEpoch.queueDeltas cap ring deltas).queue, x.2 = 1 := by
+    intro x hx
+    unfold GState.queueDeltas at hx
+    have hemp : deltas.isEmpty = false := by
+      cases deltas with
+      | nil => exact absurd rfl hdne
+      | cons _ _ => rfl
+    simp only [hemp, Bool.false_eq_true, if_false, GState.advanceEpoch, GState.new, rt, fromConfigWith, if_true,
+      List.nil_append] at hx
+    have := List.mem_of_mem_drop hx
+    rw [List.mem_map] at this
+    obtain ⟨p, _, rfl⟩ := this
+    rfl
+  have := hep _ hme
+  simp only at this
+  subst this
+  exact hme
+
+/-- **C19 (broadcast mode)**: with a router that is not selective (or none at all) one tick writes
+    the whole batch, as one `DeltaBatch`, to EVERY configured peer — whatever address arithmetic the
+    loop uses (the address map is only consulted for targeted messages) -/
+theorem loop_broadcast_reaches_everyone (a : PeerIdArith) (cap : Nat) (ring : HashRing) (me npeers : Nat)
+    (router : Option Router) (deltas : List Nat) (i : Nat) (hcap : 1 ≤ cap) (hne : deltas ≠ [])
+    (hsel : ∀ rt, router = some rt → rt.selective = false) (hi : i < npeers) :
+    deliveredTo (loopTick a cap ring me npeers (GState.new me router) deltas).1 i = deltas := by
+  have hemp : deltas.isEmpty = false := by
+    cases deltas with
+    | nil => exact absurd rfl hne
+    | cons _ _ => rfl
+  have hq : ((GState.new me router).advanceEpoch.queueDeltas cap ring deltas).queue = [(Msg.broadcast deltas, 1)] := by
+    unfold GState.queueDeltas
+    simp only [hemp, Bool.false_eq_true, if_false, GState.advanceEpoch, GState.new, List.nil_append]
+    have hc : capQ cap [(Msg.broadcast deltas, 0 + 1)] = [(Msg.broadcast deltas, 1)] := by
+      unfold capQ
+      have : ([(Msg.broadcast deltas, 0 + 1)] : List (Msg × Nat)).length - cap = 0 := by simp; omega
+      rw [this]; rfl
+    cases router with
+    | none => simp only [hc]
+    | some rt =>
+      have := hsel rt rfl
+      simp only [this, Bool.false_eq_true, if_false, hc]
+  unfold loopTick GState.drain
+  simp only [hq, dispatch, List.flatMap_cons, List.flatMap_nil, List.append_nil, deliveredTo]
+  have : ((List.range npeers).map fun j => (j, (Msg.broadcast deltas, 1))).filter (fun e => e.1 == i)
+      = [(i, (Msg.broadcast deltas, 1))] := by
+    rw [List.filter_map]
+    have hf : (List.range npeers).filter ((fun e : Nat × Msg × Nat => e.1 == i) ∘ fun j => (j, (Msg.broadcast deltas, 1))) = [i] := by
+      have : ((fun e : Nat × Msg × Nat => e.1 == i) ∘ fun j => (j, (Msg.broadcast deltas, 1))) = fun j => j == i := rfl
+      rw [this]
+      clear this
+      induction npeers with
+      | zero => omega
+      | succ n ih =>
+        rw [List.range_succ, List.filter_append]
+        by_cases hin : i < n
+        · rw [ih hin]
+          have : ([n].filter fun j => j == i) = [] := by simp; omega
+          rw [this]; rfl
+        · have hin' : i = n := by omega
+          subst hin'
+          have h1 : ((List.range i).filter fun j => j == i) = [] := by
+            rw [List.filter_eq_nil_iff]; intro x hx; rw [List.mem_range] at hx; simp; omega
+          rw [h1]; simp
+    rw [hf]; rfl
+  rw [this]
+  simp
+
+/-- **Known finding C19:gossip-loop:peer-map:off-by-one.**  The loops of
+    `production/gossip_manager.rs` still build their address map with the arithmetic that fix
+    faccb9f corrected in `GossipRouter::from_config`.  Replica 1 of a 3-node cluster (rf 3, peers
+    `[n2, n3]`, router from `from_config`) queues a `TargetedDelta` for owner 2 — and the loop finds
+    no address for id 2 (it registered ids {1, 3}): node 2 (peer index 0) is sent nothing, silently.
+    With the corrected arithmetic it is sent the delta. -/
+theorem loop_pinned_starves_owner :
+    2 ∈ getReplicas (new exHash [1, 2, 3] 1 3) 5
+    ∧ memberOfIndex 1 0 = 2
+    ∧ deliveredTo (loopTick .pinned 10000 (new exHash [1, 2, 3] 1 3) 1 2 (GState.new 1 (some (fromConfig 1 2 true))) [5]).1 0 = []
+    ∧ deliveredTo (loopTick .fixed 10000 (new exHash [1, 2, 3] 1 3) 1 2 (GState.new 1 (some (fromConfig 1 2 true))) [5]).1 0 = [5]
+    ∧ loopArith = .pinned := by
+  decide
+
+/-- **Known finding C19:gossip-loop:config:gossip_interval_ms=0:panics.**  `gossip_interval_ms`
+    is an unvalidated `u64`; with 0 both gossip loops panic in `tokio::time::interval` before the
+    first tick and no update is ever sent; with the period clamped to at least 1 ms every
+    configured value starts a ticking loop -/
+theorem gossip_interval_zero_panics :
+    loopStart false 0 = .panicZeroPeriod ∧ loopStart false 1 = .ticksEvery 1
+    ∧ (∀ ms, loopStart true ms ≠ .panicZeroPeriod) ∧ currentIntervalClamped = false := by
+  refine ⟨rfl, rfl, ?_, rfl⟩
+  intro ms h
+  simp [loopStart] at h
 
 /-! ## non-vacuity: concrete non-trivial values satisfy the hypotheses -/
 
